@@ -1215,7 +1215,8 @@ class ImplTranslator:
     SAttr "a" (SName "settings"), Cls(p, k=v) is SNewP "Cls" [p] [("k", v)], r.m(p, k=v) is SCallA "m" r [p]
     [("k", v)] as a value and the event SMethod r "m" [p] [("k", v)] as a statement, a name imported inside the
     function is SName, None / strings / booleans / integers are SNoneV / SStr / SB / SZ; a local
-    assigned on a path has the value assigned on that path.  die(...) ends a path (TDie), a bare return
+    assigned on a path has the value assigned on that path.  A `with ctx():` block without a target runs
+    its body in place.  die(...) ends a path (TDie), a bare return
     or the end of the body ends it normally (TDone).  Imports and print calls are dropped.  Anything
     else fails (fail closed)."""
 
@@ -1229,8 +1230,13 @@ class ImplTranslator:
             raise Unsupported(f"signature of {name} outside the subset")
         self.imported = set()
         for n in ast.walk(self.fd):
-            if isinstance(n, ast.ImportFrom):
+            if isinstance(n, (ast.ImportFrom, ast.Import)):
                 self.imported.update(a.asname or a.name for a in n.names)
+        # modules imported at the top of cli.py (os, warnings, ...) may be named, not called as constructors
+        self.modules = set()
+        for n in self.tree.body:
+            if isinstance(n, ast.Import):
+                self.modules.update((a.asname or a.name).split(".")[0] for a in n.names)
 
     def fail(self, node, why):
         raise Unsupported(f"line {getattr(node, 'lineno', '?')}: {why}: {ast.dump(node)[:140]}")
@@ -1252,7 +1258,7 @@ class ImplTranslator:
         if isinstance(e, ast.Name):
             if e.id in env:
                 return env[e.id]
-            if e.id == "settings" or e.id in self.imported:
+            if e.id == "settings" or e.id in self.imported or e.id in self.modules:
                 return f"(SName {self.lit(e.id)})"
             self.fail(e, "unknown name")
         if isinstance(e, ast.Attribute):
@@ -1277,6 +1283,10 @@ class ImplTranslator:
             return self.run_block(rest, env, calls)
         if isinstance(s, ast.Return) and s.value is None:
             return f"(TDone [{'; '.join(calls)}])"
+        if isinstance(s, ast.With) and all(w.optional_vars is None for w in s.items):
+            # `with ctx():` without a target: the context manager is entered (recorded as a value-less
+            # event is not needed for plumbing), the body runs in place
+            return self.run_block(list(s.body) + rest, env, calls)
         if isinstance(s, ast.Expr) and isinstance(s.value, ast.Call) and isinstance(s.value.func, ast.Name):
             fn = s.value.func.id
             if fn == "print":
@@ -1353,8 +1363,8 @@ def translate_cli_allsky(repo):
 
 
 def translate_cli_multi_tan(repo):
-    """Gallina text for cli.tile_multi_tan_impl (raises Unsupported)"""
-    return translate_cli(repo, ["tile_multi_tan_impl"])
+    """Gallina text for cli.tile_multi_tan_impl and cli.view_locally (raises Unsupported)"""
+    return translate_cli(repo, ["tile_multi_tan_impl", "view_locally"])
 
 
 if __name__ == "__main__":
